@@ -1,109 +1,672 @@
-"""MessageManager / TokenManager: shared class declarations and environment (loop, transport, timers).
-The property-specific contracts live in c03.py, c04.py, c10.py, c14.py, c18.py, c02.py."""
+"""MessageManager (aiocoap/messagemanager.py): class declarations, environment (loop, transport, timers),
+the object invariant, and one contract per function.  Serves C03, C04, C10, C14 and C18.
+
+Every function has ONE contract: `requires`/`modifies`/`ensures` are both verified on the body and used at
+call sites (callers never look into the body); `at_exit` clauses are additional obligations on the body
+(event counts taken from the ghost log, simulated timer callbacks)."""
 import z3
 from pyvc.values import *   # noqa
 from pyvc.registry import MAY
+from contracts.util import lg, lg_result, evs, count, B, Ev, dict_frame, simulate, quantified
 
 MM = 'aiocoap.messagemanager:MessageManager'
 KEY = Tuple(Opt(Ref('Remote')), Opt(INT))
 EXCH = Tuple(CALLABLE, Ref('TimerHandle'))
 BACKLOG_ITEM = Tuple(Ref('Message'), Opt(CALLABLE))
 PBKEY = Tuple(Opt(Ref('Remote')), BYTES)
+CON, NON, ACK, RST = 0, 1, 2, 3
 
 
 def register(reg, prog):
     reg.declare_class('MessageManager', MM, fields={
         'token_manager': Ref('TokenManagerI'), 'message_id': INT,
-        '_recent_messages': Dict(KEY, Opt(Ref('Message'))),
-        '_active_exchanges': Opt(Dict(KEY, EXCH)),
-        '_backlogs': Dict(Opt(Ref('Remote')), List(BACKLOG_ITEM)),
-        '_piggyback_opportunities': Dict(PBKEY, Tuple(INT, Ref('TimerHandle'))),
+        '_recent_messages': Dict(KEY, Opt(Ref('Message')), 'mm.recent'),
+        '_active_exchanges': Opt(Dict(KEY, EXCH, 'mm.active')),
+        '_backlogs': Dict(Opt(Ref('Remote')), List(BACKLOG_ITEM), 'mm.backlogs'),
+        '_piggyback_opportunities': Dict(PBKEY, Tuple(Opt(INT), Ref('TimerHandle')), 'mm.pb'),
         'loop': Ref('Loop'), 'message_interface': Ref('MessageInterface')})
+    F = reg.classes['MessageManager'].fields
+    MF = reg.classes['Message'].fields
     reg.declare_class('Loop', 'asyncio:AbstractEventLoop', opaque=True)
     reg.declare_class('TimerHandle', 'asyncio:TimerHandle', opaque=True)
     reg.declare_class('MessageInterface', 'aiocoap.interfaces:MessageInterface', opaque=True)
     reg.assume('T-LOOP: loop.call_later(d, f, *a) returns a fresh handle and runs f(*a) once after d unless cancelled; '
                'callbacks run atomically (single-threaded asyncio)')
+    reg.assume('A-OWN: container objects held in different fields are different objects (no aliasing between the dictionaries of a manager)')
 
+    # ------------------------------------------------------------ environment
     def call_later(ex, st, args, kw, node):
         loop, delay, cb = args[0], args[1], args[2]
         h = ex.new_object(st, 'TimerHandle')
         st.log.append(('call_later', delay, cb, tuple(args[3:]), h))
         return [(st, h)]
     reg.externals['Loop.call_later'] = call_later
+    reg.externals['TimerHandle.cancel'] = lambda ex, st, args, kw, node: (st.log.append(('cancel', args[0])), [(st, VNone())])[1]
+    reg.externals['MessageInterface.send'] = lambda ex, st, args, kw, node: (st.log.append(('wire', args[1])), [(st, VNone())])[1]
+    reg.externals['TokenManagerI.dispatch_error'] = lambda ex, st, args, kw, node: (st.log.append(('tm_dispatch_error',) + tuple(args)), [(st, VNone())])[1]
+    reg.externals['TokenManagerI.process_request'] = lambda ex, st, args, kw, node: (st.log.append(('tm_process_request',) + tuple(args)), [(st, VNone())])[1]
 
-    def cancel(ex, st, args, kw, node):
-        st.log.append(('cancel', args[0]))
-        return [(st, VNone())]
-    reg.externals['TimerHandle.cancel'] = cancel
+    def tm_process_response(ex, st, args, kw, node):
+        r = VBool(z3.Bool(fresh_name('matched')))
+        st.log.append(('tm_process_response',) + tuple(args) + (r,))
+        return [(st, r)]
+    reg.externals['TokenManagerI.process_response'] = tm_process_response
 
-    def send(ex, st, args, kw, node):
-        st.log.append(('wire', args[1]))
-        return [(st, VNone())]
-    reg.externals['MessageInterface.send'] = send
-
-    # Remote.as_response_address(): an address value determined by the address (pktinfo dropped for multicast)
     reg.classes['Remote'].opaque = True
+    # A-REMOTE: the response address is the same endpoint under ==/hash (udp6: same sockaddr, pktinfo dropped for
+    # multicast-locally addresses; pktinfo is not part of the modelled address value)
+    reg.externals['Remote.as_response_address'] = lambda ex, st, args, kw, node: [(st, args[0])]
+    reg.specfuncs['as_response_address'] = lambda ex, st, r: (r.some() if isinstance(r, VOpt) else r)
 
-    def as_response_address(ex, st, args, kw, node):
-        # A-REMOTE: the response address is the same endpoint under ==/hash (udp6: same sockaddr, pktinfo dropped
-        # for multicast-locally addresses; pktinfo is not part of the modelled address value)
-        return [(st, args[0])]
-    reg.externals['Remote.as_response_address'] = as_response_address
-
-    from contracts.util import lg, lg_result
-    PS = ['C03', 'C04', 'C10', 'C14', 'C18']
-    MSG = Ref('Message')
-    # ---------------------------------------------------- call-site summaries
-    reg.contract(MM + '._deduplicate_message', params={'message': MSG}, result=BOOL, verify=False, properties=PS,
-                 modifies=['dict:self._recent_messages'], ghost=lg_result('dedup', 'self', 'message'),
-                 trusted_reason='call-site summary; body verified for C04 (contracts/c04.py)')
-    reg.contract(MM + '._process_ping', params={'message': MSG}, verify=False, properties=PS,
-                 ghost=lg('ping', 'self', 'message'), trusted_reason='summary; body verified below (#body)')
-    reg.contract(MM + '._process_request', params={'request': MSG}, verify=False, properties=PS,
-                 modifies=['dict:self._piggyback_opportunities'],
-                 ghost=lg('process_request', 'self', 'request'), trusted_reason='summary; body verified below (#body)')
-    reg.contract(MM + '._process_response', params={'response': MSG}, result=BOOL, verify=False, properties=PS,
-                 ghost=lg_result('process_response', 'self', 'response'), trusted_reason='summary; body verified below (#body)')
-    reg.contract(MM + '._send_empty_ack', params={'remote': Opt(Ref('Remote')), 'mid': Opt(INT), 'reason': STR},
-                 verify=False, properties=PS, modifies=['dict:self._recent_messages'],
-                 ghost=lg('empty_ack', 'self', 'remote', 'mid'), trusted_reason='summary; body verified below (#body)')
-    reg.contract(MM + '._send_initially', params={'message': MSG, 'messageerror_monitor': Opt(CALLABLE)},
-                 verify=False, properties=PS,
-                 modifies=['dict:self._recent_messages', 'dict:self._active_exchanges', 'dict:self._backlogs', '*lists'],
-                 requires=['implies(message.mtype == 0, messageerror_monitor is not None)'],
-                 ensures={'con-registers-exchange': 'implies(message.mtype == 0, (message.remote, message.mid) in self._active_exchanges and message.remote in self._backlogs)',
-                          'non-con-leaves-exchanges': 'implies(message.mtype != 0, forall_key_same(self, old(self)))' if False else 'True'},
-                 ghost=lg('send_initially', 'self', 'message', 'messageerror_monitor'),
-                 trusted_reason='summary; body verified below (#body)')
-
-
-    @reg.specfunc('mm_wf')
-    def mm_wf(ex, st, mm):
-        """ownership: the manager's four dictionaries are four different objects (A-OWN)"""
-        F = reg.classes['MessageManager'].fields
-        rec = ex.read_field(st, mm, '_recent_messages', F['_recent_messages'])
-        act = ex.read_field(st, mm, '_active_exchanges', F['_active_exchanges'])
-        bl = ex.read_field(st, mm, '_backlogs', F['_backlogs'])
-        pb = ex.read_field(st, mm, '_piggyback_opportunities', F['_piggyback_opportunities'])
-        reg.assume('A-OWN: container objects held in different fields are different objects (no aliasing between the dictionaries of a manager)')
-        return VBool(z3.And(z3.Not(act.is_none()), z3.Distinct(rec.t, act.some().t, bl.t, pb.t)))
-
-    @reg.specfunc('mm_wf_or_shutdown')
-    def mm_wf2(ex, st, mm):
-        F = reg.classes['MessageManager'].fields
-        rec = ex.read_field(st, mm, '_recent_messages', F['_recent_messages'])
-        act = ex.read_field(st, mm, '_active_exchanges', F['_active_exchanges'])
-        bl = ex.read_field(st, mm, '_backlogs', F['_backlogs'])
-        pb = ex.read_field(st, mm, '_piggyback_opportunities', F['_piggyback_opportunities'])
-        return VBool(z3.And(z3.Distinct(rec.t, bl.t, pb.t), z3.Or(act.is_none(), z3.Distinct(rec.t, act.some().t, bl.t, pb.t))))
-
-    # list.append on backlog lists is additionally recorded in the event log
+    # list.append of a (message, monitor) pair is additionally recorded in the event log
     orig_append = reg.externals['list.append']
 
     def append_logged(ex, st, args, kw, node):
         l, v = args
-        if isinstance(v, VTuple) and len(v.items) == 2 and isinstance(v.items[0], VRef) and v.items[0].cls == 'Message' and l.e[0] == 'tuple':
+        if isinstance(v, VTuple) and len(v.items) == 2 and isinstance(v.items[0], VRef) and v.items[0].cls == 'Message' and l.e and l.e[0] == 'tuple':
             st.log.append(('backlog_append', l, v))
         return orig_append(ex, st, args, kw, node)
     reg.externals['list.append'] = append_logged
+
+    # -------------------------------------------------------- object invariant
+    def dicts(ex, st, mm):
+        rec = ex.read_field(st, mm, '_recent_messages', F['_recent_messages'])
+        act = ex.read_field(st, mm, '_active_exchanges', F['_active_exchanges'])
+        bl = ex.read_field(st, mm, '_backlogs', F['_backlogs'])
+        pb = ex.read_field(st, mm, '_piggyback_opportunities', F['_piggyback_opportunities'])
+        return rec, act, bl, pb
+
+    def nstart_formula(ex, st, mm, hole=None):
+        with quantified(ex):
+            return _nstart_formula(ex, st, mm, hole)
+
+    def _nstart_formula(ex, st, mm, hole=None):
+        rec, act, bl, pb = dicts(ex, st, mm)
+        act = act.some()
+        ks = sort_of(act.k)
+        k1, k2 = z3.Const('inv_k1', ks), z3.Const('inv_k2', ks)
+        dom, bdom = ex.dict_dom(st, act), ex.dict_dom(st, bl)
+        r = lambda k: ks.accessor(0, 0)(k)
+        rr = z3.Const('inv_r', ks.accessor(0, 0).range())
+        mm_ = z3.Const('inv_m', ks.accessor(0, 1).range())
+        open_ = z3.Exists([mm_], z3.Select(dom, ks.constructor(0)(rr, mm_)))
+        if hole is not None:
+            open_ = z3.Or(rr == coerce(hole, act.k[1][0]).t, open_)
+        return z3.And(
+            z3.ForAll([rr], z3.Implies(z3.Select(bdom, rr), open_)),
+            z3.ForAll([k1], z3.Implies(z3.Select(dom, k1), z3.Select(bdom, r(k1)))),
+            z3.ForAll([k1, k2], z3.Implies(z3.And(z3.Select(dom, k1), z3.Select(dom, k2), r(k1) == r(k2)), k1 == k2)))
+
+    def recent_formula(ex, st, mm):
+        with quantified(ex):
+            return _recent_formula(ex, st, mm)
+
+    def _recent_formula(ex, st, mm):
+        rec = dicts(ex, st, mm)[0]
+        ks = sort_of(rec.k)
+        k = z3.Const('inv_rk', ks)
+        v = from_term(rec.v, z3.Select(ex.dict_vals(st, rec), k))
+        mt = ex.read_field(st, v.some(), 'mtype', MF['mtype'])
+        mid = ex.read_field(st, v.some(), 'mid', MF['mid'])
+        rem = ex.read_field(st, v.some(), 'remote', MF['remote'])
+        ok = z3.And(z3.Not(mt.is_none()), z3.Or(mt.some().t == ACK, mt.some().t == RST), mid.t == ks.accessor(0, 1)(k),
+                    rem.t == ks.accessor(0, 0)(k), z3.Not(mid.is_none()), z3.Not(rem.is_none()),
+                    v.some().t >= 1, v.some().t < st.alloc)
+        return z3.ForAll([k], z3.Implies(z3.And(z3.Select(ex.dict_dom(st, rec), k), z3.Not(v.is_none())), ok))
+
+    def pb_formula(ex, st, mm):
+        with quantified(ex):
+            return _pb_formula(ex, st, mm)
+
+    def _pb_formula(ex, st, mm):
+        pb = dicts(ex, st, mm)[3]
+        ks = sort_of(pb.k)
+        k = z3.Const('inv_pk', ks)
+        v = from_term(pb.v, z3.Select(ex.dict_vals(st, pb), k))
+        return z3.ForAll([k], z3.Implies(z3.Select(ex.dict_dom(st, pb), k),
+                                          z3.And(z3.Not(v.items[0].is_none()), z3.Not(ks.accessor(0, 0)(k) == sort_of(pb.k[1][0]).constructor(0)()))))
+
+    def tuning_ok_formula(ex, st, msg):
+        tt = ex.read_field(st, msg, 'transport_tuning', MF['transport_tuning'])
+        TF = reg.classes['TransportTuning'].fields
+        a = ex.read_field(st, tt, 'ACK_TIMEOUT', TF['ACK_TIMEOUT']).t
+        f = ex.read_field(st, tt, 'ACK_RANDOM_FACTOR', TF['ACK_RANDOM_FACTOR']).t
+        n = ex.read_field(st, tt, 'MAX_RETRANSMIT', TF['MAX_RETRANSMIT']).t
+        return z3.And(a > 0, f >= 1, n >= 0)
+
+    def backlog_formula(ex, st, mm):
+        with quantified(ex):
+            return _backlog_formula(ex, st, mm)
+
+    def _backlog_formula(ex, st, mm):
+        """queued items are confirmable messages for that endpoint, complete with monitor and message ID"""
+        bl = dicts(ex, st, mm)[2]
+        rs = sort_of(bl.k)
+        r = z3.Const('inv_br', rs)
+        j = z3.Int('inv_bj')
+        lst = from_term(bl.v, z3.Select(ex.dict_vals(st, bl), r))
+        n = z3.Select(ex.heap_get(st, ('ll',), z3.ArraySort(I, I)), lst.t)
+        item = from_term(lst.e, z3.Select(z3.Select(ex._le(st, lst)[1], lst.t), j))
+        msg, mon = item.items
+        mt = ex.read_field(st, msg, 'mtype', MF['mtype'])
+        ok = z3.And(z3.Not(mon.is_none()), z3.Not(mt.is_none()), mt.some().t == CON,
+                    ex.read_field(st, msg, 'remote', MF['remote']).t == r,
+                    z3.Not(ex.read_field(st, msg, 'mid', MF['mid']).is_none()),
+                    tuning_ok_formula(ex, st, msg), msg.t >= 1, msg.t < st.alloc,
+                    ex.read_field(st, msg, 'transport_tuning', MF['transport_tuning']).t < st.alloc)
+        return z3.ForAll([r, j], z3.Implies(z3.And(z3.Select(ex.dict_dom(st, bl), r), 0 <= j, j < n), ok))
+
+    def wf_formula(ex, st, mm, allow_shutdown):
+        rec, act, bl, pb = dicts(ex, st, mm)
+        mid = ex.read_field(st, mm, 'message_id', INT).t
+        base = z3.And(mid >= 0, mid <= 65535)
+        if allow_shutdown:
+            return z3.And(base, z3.Distinct(rec.t, bl.t, pb.t),
+                          z3.Or(act.is_none(), z3.Distinct(rec.t, act.some().t, bl.t, pb.t)))
+        return z3.And(base, z3.Not(act.is_none()), z3.Distinct(rec.t, act.some().t, bl.t, pb.t))
+
+    @reg.specfunc('mm_inv')
+    def mm_inv(ex, st, mm, hole=None):
+        """the object invariant of a running MessageManager (hole: an endpoint whose exchange was just closed)"""
+        return VBool(z3.And(wf_formula(ex, st, mm, False), opaque('nstart', nstart_formula(ex, st, mm, hole)),
+                            opaque('recent', recent_formula(ex, st, mm)), opaque('pb', pb_formula(ex, st, mm)),
+                            opaque('backlog', backlog_formula(ex, st, mm))))
+
+    @reg.specfunc('mm_inv_sd')
+    def mm_inv_sd(ex, st, mm):
+        """... also valid after shutdown() (then there are no exchanges)"""
+        act = dicts(ex, st, mm)[1]
+        return VBool(z3.And(wf_formula(ex, st, mm, True), z3.Or(act.is_none(), opaque('nstart', nstart_formula(ex, st, mm))),
+                            opaque('recent', recent_formula(ex, st, mm)), opaque('pb', pb_formula(ex, st, mm)),
+                            opaque('backlog', backlog_formula(ex, st, mm))))
+
+    @reg.specfunc('mm_inv_any')
+    def mm_inv_any(ex, st, mm, hole):
+        """weakest form: shutdown allowed, and `hole` may have a backlog entry without an open exchange"""
+        act = dicts(ex, st, mm)[1]
+        return VBool(z3.And(wf_formula(ex, st, mm, True), z3.Or(act.is_none(), opaque('nstart', nstart_formula(ex, st, mm, hole))),
+                            opaque('recent', recent_formula(ex, st, mm)), opaque('pb', pb_formula(ex, st, mm)),
+                            opaque('backlog', backlog_formula(ex, st, mm))))
+
+    def pres(hole):
+        return {'inv-any-kept': 'mm_inv_any(self, %s)' % hole,
+                'inv-sd-kept': 'implies(old(mm_inv_sd(self)), mm_inv_sd(self))',
+                'inv-running-kept': 'implies(old(mm_inv(self)), mm_inv(self))',
+                'shutdown-state-kept': '(self._active_exchanges is None) == old(self._active_exchanges is None)'}
+
+    @reg.specfunc('exists_active')
+    def exists_active(ex, st, mm, remote):
+        act = dicts(ex, st, mm)[1].some()
+        ks = sort_of(act.k)
+        m = z3.Const('inv_em', ks.accessor(0, 1).range())
+        r = coerce(remote, act.k[1][0]).t
+        return VBool(z3.Exists([m], z3.Select(ex.dict_dom(st, act), ks.constructor(0)(r, m))))
+
+    @reg.specfunc('not_held')
+    def not_held(ex, st, mm, msg):
+        """the message object is not one the manager already keeps (stored answer or queued message): A-FRESHMSG"""
+        reg.assume('A-FRESHMSG: a message handed to send_message is not an object the manager already stores '
+                   '(as answer for duplicates or in a backlog)')
+        rec, act, bl, pb = dicts(ex, st, mm)
+        with quantified(ex):
+            k = z3.Const('inv_rk', sort_of(rec.k))
+            v = from_term(rec.v, z3.Select(ex.dict_vals(st, rec), k))
+            a = z3.ForAll([k], z3.Implies(z3.And(z3.Select(ex.dict_dom(st, rec), k), z3.Not(v.is_none())), v.some().t != msg.t))
+            r = z3.Const('inv_br', sort_of(bl.k))
+            j = z3.Int('inv_bj')
+            lst = from_term(bl.v, z3.Select(ex.dict_vals(st, bl), r))
+            item = from_term(lst.e, z3.Select(z3.Select(ex._le(st, lst)[1], lst.t), j))
+            b = z3.ForAll([r, j], z3.Implies(z3.Select(ex.dict_dom(st, bl), r), item.items[0].t != msg.t))
+        return VBool(z3.And(opaque('nh_recent', a), opaque('nh_backlog', b)))
+
+    @reg.specfunc('tuning_ok')
+    def tuning_ok(ex, st, msg):
+        return VBool(tuning_ok_formula(ex, st, msg.some() if isinstance(msg, VOpt) else msg))
+
+    def frame(field, key_text=None):
+        """ensures clause: the dictionary in self.<field> changes at most at the given key"""
+        def cl(ctx):
+            kv = ctx.ev(key_text, old=False) if key_text else None
+            return dict_frame(ctx.ex, ctx.st, ctx.old_st, ctx.env['self'], F, field, kv)
+        return cl
+
+    def recent_update(ctx):
+        """the only change to the duplicate memory: an ACK/RST for a remembered (remote, mid) is stored under that key"""
+        ex, s, old, env = ctx.ex, ctx.st, ctx.old_st, ctx.env
+        msg = env['message']
+        now, was = dicts(ex, s, env['self'])[0], dicts(ex, old, env['self'])[0]
+        ks = sort_of(now.k)
+        kk = z3.Const(fresh_name('uk'), ks)
+        key = coerce(ctx.ev('(message.remote, message.mid)'), now.k).t
+        is_ack = ex.truth(s, ctx.ev('message.mtype == 2 or message.mtype == 3'))
+        known = z3.Select(ex.dict_dom(old, was), key)
+        vs = sort_of(now.v)
+        newv = z3.If(z3.And(known, is_ack), (msg.t if isinstance(msg, VOpt) else vs.constructor(1)(msg.t)), z3.Select(ex.dict_vals(old, was), key))
+        return z3.And(now.t == was.t,
+                      z3.ForAll([kk], z3.Select(ex.dict_dom(s, now), kk) == z3.Select(ex.dict_dom(old, was), kk)),
+                      z3.ForAll([kk], z3.Implies(kk != key, z3.Select(ex.dict_vals(s, now), kk) == z3.Select(ex.dict_vals(old, was), kk))),
+                      z3.Select(ex.dict_vals(s, now), key) == newv)
+
+    MSG = Ref('Message')
+    REC, ACT, BL, PB = 'dict:self._recent_messages', 'dict:self._active_exchanges', 'dict:self._backlogs', 'dict:self._piggyback_opportunities'
+
+    # =============================================================== leaves
+    reg.contract(MM + '._next_message_id', result=INT, properties=['C10'], only_raises=True,
+                 requires=['0 <= self.message_id <= 65535'],
+                 ensures={'returns-current': 'result == old(self.message_id)',
+                          'advances-mod-2^16': 'self.message_id == (old(self.message_id) + 1) % 65536',
+                          'fresh': 'self.message_id != result', 'in-range': '0 <= result <= 65535'},
+                 modifies=['self.message_id'], ghost=lg_result('next_mid', 'self'))
+
+    reg.contract(MM + '._send_via_transport', params={'message': MSG}, properties=['C03', 'C10'], only_raises=True,
+                 ghost=lg('wire', 'message'),
+                 at_exit=lambda ex, s, entry, env, result: [
+                     ('one-datagram', B(len(evs(s, 'wire')) == 1 and len(s.log) == 1)),
+                     ('same-message-object', z3.And(B(True), *[e[1].t == env['message'].t for e in evs(s, 'wire')]))])
+
+    # ---- _schedule_retransmit: one timer whose callback re-enters _retransmit with exactly these arguments
+    def sched_exit(ex, s, entry, env, result):
+        cl = evs(s, 'call_later')
+        g = [('one-timer', B(len(cl) == 1 and len(s.log) == 1))]
+        if len(cl) != 1:
+            return g
+        _, delay, cb, extra, handle = cl[0]
+        g.append(('delay-is-timeout', ex.eq(s, delay, env['timeout'])))
+        g.append(('returns-handle', result.t == handle.t))
+        s3 = simulate(ex, s, cb, extra)
+        g.append(('callback-runs', B(s3 is not None)))
+        if s3 is not None:
+            calls = [e for e in s3.log[len(s.log):] if e[0] == '_retransmit']
+            g.append(('callback-retransmits-once', B(len(calls) == 1)))
+            for c in calls:
+                g.append(('callback-same-message', c[2].t == env['message'].t))
+                g.append(('callback-same-timeout', ex.eq(s3, c[3], env['timeout'])))
+                g.append(('callback-same-counter', ex.eq(s3, c[4], env['retransmission_counter'])))
+                g.append(('callback-same-manager', c[1].t == env['self'].t))
+        return g
+
+    reg.contract(MM + '._schedule_retransmit', params={'message': MSG, 'timeout': REAL, 'retransmission_counter': INT},
+                 result=Ref('TimerHandle'), properties=['C03'], only_raises=True, at_exit=sched_exit,
+                 ghost=lg_result('schedule', 'self', 'message', 'timeout', 'retransmission_counter'))
+
+    # ---- duplicate memory
+    def st_exit(ex, s, entry, env, result):
+        ev = Ev(ex, s, entry, env)
+        known = ev('old((message.remote, message.mid) in self._recent_messages)')
+        is_ack = ev('message.mtype == 2 or message.mtype == 3')
+        return [('stores-acknowledgement-of-known-request', z3.Implies(z3.And(known, is_ack), ev('self._recent_messages[(message.remote, message.mid)] is message'))),
+                ('never-creates-a-key', ev('((message.remote, message.mid) in self._recent_messages)') == known),
+                ('nothing-sent', B(len(s.log) == 0))]
+
+    reg.contract(MM + '._store_response_for_duplicates', params={'message': MSG}, properties=['C04'],
+                 requires=['mm_inv_any(self, message.remote)', 'message.mid is not None', 'message.remote is not None'],
+                 modifies=[REC], only_raises=True, at_exit=st_exit,
+                 ghost=lg('store_for_duplicates', 'self', 'message'),
+                 ensures=dict(pres('message.remote'), **{'exact-update': recent_update}))
+
+    # ---- _add_exchange
+    def add_exit(ex, s, entry, env, result):
+        ev = Ev(ex, s, entry, env)
+        scheds = evs(s, 'schedule')
+        g = [('one-timer', B(len(scheds) == 1 and len(s.log) == 1))]
+        for e in scheds:
+            g.append(('initial-timeout-in-range', ev('message.transport_tuning.ACK_TIMEOUT <= t0 <= message.transport_tuning.ACK_TIMEOUT * message.transport_tuning.ACK_RANDOM_FACTOR', t0=e[3])))
+            g.append(('counter-starts-at-0', ev('c == 0', c=e[4])))
+            g.append(('for-this-message', e[2].t == env['message'].t))
+            g.append(('handle-stored', ev('self._active_exchanges[(message.remote, message.mid)][1] is h', h=e[5])))
+        g.append(('monitor-stored', ev('self._active_exchanges[(message.remote, message.mid)][0] is messageerror_monitor')))
+        return g
+
+    reg.contract(MM + '._add_exchange', params={'message': MSG, 'messageerror_monitor': CALLABLE}, properties=['C03', 'C14'],
+                 requires=['mm_inv(self, message.remote)', 'message.remote is not None', 'message.mid is not None', 'tuning_ok(message)',
+                           'not exists_active(self, message.remote)'],
+                 only_raises=True, at_exit=add_exit, modifies=[ACT, BL],
+                 ghost=lg('_add_exchange', 'self', 'message', 'messageerror_monitor'),
+                 ensures={'registered': '(message.remote, message.mid) in self._active_exchanges',
+                          'backlog-key': 'message.remote in self._backlogs',
+                          'other-exchanges-untouched': frame('_active_exchanges', '(message.remote, message.mid)'),
+                          'other-backlogs-untouched': frame('_backlogs', 'message.remote'),
+                          'existing-backlog-kept': 'implies(old(message.remote in self._backlogs), self._backlogs[message.remote] is old(self._backlogs[message.remote]))',
+                          'new-backlog-empty': 'implies(not old(message.remote in self._backlogs), len(self._backlogs[message.remote]) == 0)',
+                          'invariant-kept': 'mm_inv(self)'})
+
+    # ---- _send_initially: exchange (if CON), remember for duplicates, one datagram
+    def si_exit(ex, s, entry, env, result):
+        ev = Ev(ex, s, entry, env)
+        kinds = [e[0] for e in s.log]
+        con = ev('message.mtype == 0')
+        g = [('one-datagram', B(kinds.count('wire') == 1)),
+             ('exchange-iff-con', B(kinds.count('_add_exchange') == 1) == con),
+             ('remembered-for-duplicates', B(kinds.count('store_for_duplicates') == 1)),
+             ('order', B(kinds in (['_add_exchange', 'store_for_duplicates', 'wire'], ['store_for_duplicates', 'wire'])))]
+        for e in s.log:
+            g.append(('same-message', (e[2] if e[0] != 'wire' else e[1]).t == env['message'].t))
+        for e in evs(s, '_add_exchange'):
+            g.append(('monitor-passed-on', ev('m is messageerror_monitor', m=e[3])))
+        return g
+
+    reg.contract(MM + '._send_initially', params={'message': MSG, 'messageerror_monitor': Opt(CALLABLE)},
+                 properties=['C03', 'C04', 'C10', 'C14'],
+                 requires=['mm_inv_any(self, message.remote)', 'message.mid is not None', 'message.remote is not None', 'message.mtype is not None',
+                           'implies(message.mtype == 0, messageerror_monitor is not None and self._active_exchanges is not None '
+                           'and tuning_ok(message) and not exists_active(self, message.remote))'],
+                 only_raises=True, at_exit=si_exit, modifies=[REC, ACT, BL],
+                 ghost=lg('send_initially', 'self', 'message', 'messageerror_monitor'),
+                 ensures={'duplicate-memory-update': recent_update,
+                          'con-registers-exchange': 'implies(message.mtype == 0, (message.remote, message.mid) in self._active_exchanges and message.remote in self._backlogs)',
+                          'other-exchanges-untouched': frame('_active_exchanges', '(message.remote, message.mid)'),
+                          'other-backlogs-untouched': frame('_backlogs', 'message.remote'),
+                          'non-con-leaves-exchanges': lambda ctx: z3.Implies(ctx.ex.truth(ctx.st, ctx.ev('message.mtype != 0')),
+                              z3.And(dict_frame(ctx.ex, ctx.st, ctx.old_st, ctx.env['self'], F, '_active_exchanges'),
+                                     dict_frame(ctx.ex, ctx.st, ctx.old_st, ctx.env['self'], F, '_backlogs'))),
+                          'existing-backlog-kept': 'implies(old(message.remote in self._backlogs), self._backlogs[message.remote] is old(self._backlogs[message.remote]))',
+                          'con-closes-the-hole': 'implies(message.mtype == 0, mm_inv(self))',
+                          'inv-any-kept': 'mm_inv_any(self, message.remote)',
+                          'inv-sd-kept': 'implies(old(mm_inv_sd(self)), mm_inv_sd(self))',
+                          'inv-running-kept': 'implies(old(mm_inv(self)), mm_inv(self))',
+                          'shutdown-state-kept': '(self._active_exchanges is None) == old(self._active_exchanges is None)'})
+
+    # ---- empty ACK / RST helpers
+    def ack_like_exit(mtype, who, mid_text):
+        def f(ex, s, entry, env, result):
+            ev = Ev(ex, s, entry, env)
+            si = evs(s, 'send_initially')
+            g = [('one-message', B(len(si) == 1 and len(s.log) == 1))]
+            for e in si:
+                g.append(('type-code-mid', ev('a.mtype == %d and a.code == 0 and a.mid == %s and len(a.payload) == 0' % (mtype, mid_text), a=e[2])))
+                g.append(('to-the-sender', ev('a.remote == as_response_address(%s)' % who, a=e[2])))
+            return g
+        return f
+
+    reg.contract(MM + '._send_empty_ack', params={'remote': Opt(Ref('Remote')), 'mid': Opt(INT), 'reason': STR},
+                 properties=['C10', 'C04'], requires=['mm_inv_sd(self)', 'remote is not None', 'mid is not None'],
+                 only_raises=True, modifies=[REC], at_exit=ack_like_exit(ACK, 'remote', 'mid'),
+                 ghost=lg('empty_ack', 'self', 'remote', 'mid'),
+                 ensures={'memory-changes-only-for-this-request': frame('_recent_messages', '(remote, mid)'),
+                          'no-key-created': '((remote, mid) in self._recent_messages) == old((remote, mid) in self._recent_messages)',
+                          'invariant-kept': 'mm_inv_sd(self)',
+                          'running-stays-running': 'implies(old(self._active_exchanges is not None), mm_inv(self))'})
+
+    reg.contract(MM + '._process_ping', params={'message': MSG}, properties=['C10'],
+                 requires=['mm_inv_sd(self)', 'message.remote is not None', 'message.mid is not None'],
+                 only_raises=True, modifies=[REC], at_exit=ack_like_exit(RST, 'message.remote', 'message.mid'),
+                 ghost=lg('ping', 'self', 'message'),
+                 ensures={'memory-changes-only-for-this-message': frame('_recent_messages', '(message.remote, message.mid)'),
+                          'invariant-kept': 'mm_inv_sd(self)',
+                          'running-stays-running': 'implies(old(self._active_exchanges is not None), mm_inv(self))'})
+
+    reg.contract(MM + '._process_response', params={'response': MSG}, result=BOOL, properties=['C10', 'C02'], only_raises=True,
+                 ghost=lg_result('process_response', 'self', 'response'),
+                 at_exit=lambda ex, s, entry, env, result: [
+                     ('token-manager-decides', B(len(evs(s, 'tm_process_response')) == 1 and len(s.log) == 1)),
+                     ('this-response', z3.And(B(True), *[e[2].t == env['response'].t for e in evs(s, 'tm_process_response')])),
+                     ('result-passed-through', z3.And(B(True), *[e[-1].t == result.t for e in evs(s, 'tm_process_response')]))])
+
+    # ---- _deduplicate_message
+    def dd_exit(ex, s, entry, env, result):
+        ev = Ev(ex, s, entry, env)
+        dup = ev('old((message.remote, message.mid) in self._recent_messages)')
+        si, timers = evs(s, 'send_initially'), evs(s, 'call_later')
+        g = []
+        stored = ev('old(self._recent_messages[(message.remote, message.mid)]) is not None')
+        g.append(('con-duplicate-resends-stored-answer', z3.Implies(dup, B(len(si) == 1) == z3.And(ev('message.mtype == 0'), stored))))
+        for e in si:
+            g.append(('resends-exactly-the-stored-message', ev('a is old(self._recent_messages[(message.remote, message.mid)])', a=e[2])))
+        g.append(('new-message-sends-nothing', z3.Implies(z3.Not(dup), B(len(si) == 0))))
+        g.append(('one-expiry-timer-iff-new', B(len(timers) == 1) == z3.Not(dup)))
+        g.append(('nothing-else-happens', B(len(s.log) == len(si) + len(timers))))
+        for e in timers:
+            g.append(('expires-after-EXCHANGE_LIFETIME-of-its-tuning', ev('d == message.transport_tuning.EXCHANGE_LIFETIME', d=e[1])))
+            s3 = simulate(ex, s, e[2], e[3])
+            g.append(('expiry-callback-does-not-raise', B(s3 is not None)))
+            if s3 is not None:
+                e3 = Ev(ex, s3, entry, env)
+                g.append(('expiry-forgets-this-key', e3('(message.remote, message.mid) not in self._recent_messages')))
+                kv = ex.spec_val(s, '(message.remote, message.mid)', env=env)
+                now, was = dicts(ex, s3, env['self'])[0], dicts(ex, s, env['self'])[0]
+                kk = z3.Const(fresh_name('ok'), sort_of(now.k))
+                g.append(('expiry-forgets-nothing-else', z3.ForAll([kk], z3.Implies(kk != coerce(kv, now.k).t,
+                          z3.Select(ex.dict_dom(s3, now), kk) == z3.Select(ex.dict_dom(s, was), kk)))))
+        return g
+
+    reg.contract(MM + '._deduplicate_message', params={'message': MSG}, result=BOOL, properties=['C04'],
+                 requires=['mm_inv_sd(self)', 'message.remote is not None', 'message.mid is not None', 'message.mtype is not None', 'tuning_ok(message)'],
+                 only_raises=True, at_exit=dd_exit, modifies=[REC],
+                 ghost=lg_result('dedup', 'self', 'message'),
+                 ensures={'returns-whether-duplicate': 'result == old((message.remote, message.mid) in self._recent_messages)',
+                          'new-message-is-remembered': 'implies(not result, (message.remote, message.mid) in self._recent_messages and self._recent_messages[(message.remote, message.mid)] is None)',
+                          'duplicate-keeps-stored-answer': 'implies(result, (message.remote, message.mid) in self._recent_messages and self._recent_messages[(message.remote, message.mid)] is old(self._recent_messages[(message.remote, message.mid)]))',
+                          'other-keys-untouched': frame('_recent_messages', '(message.remote, message.mid)'),
+                          'invariant-kept': 'mm_inv_sd(self)',
+                          'running-stays-running': 'implies(old(self._active_exchanges is not None), mm_inv(self))'})
+
+    # ---- _continue_backlog: after an exchange ended, send queued messages in order until one is open again
+    def cb_step(ex, s, snap):
+        evs_ = s.log[len(snap.log):]
+        si = [e for e in evs_ if e[0] == 'send_initially']
+        g = [('one-transmission-per-iteration', B(len(si) == 1 and len(evs_) == 1))]
+        for e in si:
+            g.append(('fifo-head-of-the-backlog-is-sent', ex.truth(s, ex.spec_val(s, 'm is head(self._backlogs[remote][0])[0] and mon is head(self._backlogs[remote][0])[1]', env=dict(ex.visible_env(s), m=e[2], mon=e[3])))))
+        g.append(('same-list-object', ex.truth(s, ex.spec_val(s, 'self._backlogs[remote] is head(self._backlogs[remote])'))))
+        g.append(('backlog-shrinks-by-its-head', ex.truth(s, ex.spec_val(s, 'len(self._backlogs[remote]) == head(len(self._backlogs[remote])) - 1'))))
+        g.append(('rest-keeps-order', ex.truth(s, ex.spec_val(s, 'forall(j, 0, len(self._backlogs[remote]), self._backlogs[remote][j] == head(self._backlogs[remote][j + 1]))'))))
+        return g
+
+    def cb_exit(ex, s, entry, env, result):
+        snap = s.ghost.get('$head')
+        evs_ = s.log[len(snap.log):] if snap is not None else s.log
+        return [('no-transmission-after-the-last-iteration', B(not evs_))]
+
+    reg.contract(MM + '._continue_backlog', params={'remote': Opt(Ref('Remote'))}, properties=['C14', 'C03'],
+                 requires=['mm_inv(self, remote)', 'remote is not None', 'remote in self._backlogs', 'not exists_active(self, remote)'],
+                 raises={}, only_raises=True, modifies=[REC, ACT, BL, '*lists'],
+                 invariants={0: ['mm_inv(self, remote)', 'remote in self._backlogs', 'remote is not None']},
+                 loop_steps={0: [cb_step]}, at_exit=cb_exit,
+                 ghost=lg('_continue_backlog', 'self', 'remote'),
+                 ensures={'invariant-restored': 'mm_inv(self)',
+                          'backlog-key-iff-open-exchange': '(remote in self._backlogs) == exists_active(self, remote)'})
+
+    # ---- _remove_exchange (ACK / RST arrived)
+    def rm_exit(ex, s, entry, env, result):
+        ev = Ev(ex, s, entry, env)
+        present = ev('old((message.remote, message.mid) in self._active_exchanges)')
+        cancels, calls, conts = evs(s, 'cancel'), evs(s, 'call'), evs(s, '_continue_backlog')
+        g = [('absent-key-changes-nothing', z3.Implies(z3.Not(present), B(len(s.log) == 0))),
+             ('timer-cancelled-once-iff-present', B(len(cancels) == 1) == present)]
+        for e in cancels:
+            g.append(('cancels-this-exchange-timer', ev('h is old(self._active_exchanges[(message.remote, message.mid)][1])', h=e[1])))
+        g.append(('monitor-called-iff-reset', B(len(calls) == 1) == z3.And(present, ev('message.mtype == 3'))))
+        for e in calls:
+            g.append(('calls-this-exchange-monitor', e[1] == ex.spec_val(s, 'old(self._active_exchanges[(message.remote, message.mid)][0])', env=env, old_st=entry).t))
+        g.append(('backlog-continued-iff-present', B(len(conts) == 1) == present))
+        for e in conts:
+            g.append(('continues-backlog-of-this-endpoint', ev('r is message.remote', r=e[2])))
+        return g
+
+    reg.contract(MM + '._remove_exchange', params={'message': MSG}, properties=['C03', 'C14'],
+                 requires=['mm_inv(self)', 'message.remote is not None'],
+                 only_raises=True, at_exit=rm_exit, modifies=[REC, ACT, BL, '*lists'],
+                 ghost=lg('_remove_exchange', 'self', 'message'),
+                 ensures={'unmatched-changes-nothing': ('implies(not old((message.remote, message.mid) in self._active_exchanges), True)'),
+                          'invariant-kept': 'mm_inv(self)'})
+
+    def unmatched_frame(ctx):
+        absent = z3.Not(ctx.ex.truth(ctx.old_st.copy(), ctx.ev('(message.remote, message.mid) in self._active_exchanges', old=True)))
+        return z3.Implies(absent, z3.And(*[dict_frame(ctx.ex, ctx.st, ctx.old_st, ctx.env['self'], F, f) for f in ('_active_exchanges', '_backlogs', '_recent_messages')]))
+    reg.contracts[MM + '._remove_exchange'].ensures['unmatched-changes-nothing'] = unmatched_frame
+
+    # ---- _retransmit (timer entry point)
+    def retr_exit(ex, s, entry, env, result):
+        msg = env['message']
+        ev = Ev(ex, s, entry, env)
+        more = ev('retransmission_counter < message.transport_tuning.MAX_RETRANSMIT')
+        wires, scheds, errs = evs(s, 'wire'), evs(s, 'schedule'), evs(s, 'tm_dispatch_error')
+        g = [('resend-iff-budget-left', B(len(wires) == 1) == more), ('at-most-one-copy', B(len(wires) <= 1))]
+        for e in wires:
+            g.append(('byte-identical-copy(same object)', e[1].t == msg.t))
+        g.append(('reschedule-iff-resend', B(len(scheds) == len(wires))))
+        for e in scheds:
+            g.append(('timeout-doubles', ev('t2 == 2 * timeout', t2=e[3])))
+            g.append(('counter-increments', ev('c2 == retransmission_counter + 1', c2=e[4])))
+            g.append(('same-message-rescheduled', e[2].t == msg.t))
+            g.append(('new-timer-stored', ev('self._active_exchanges[(message.remote, message.mid)][1] is h', h=e[5])))
+        g.append(('give-up-fails-request-once', B(len(errs) == 1) == z3.Not(more)))
+        for e in errs:
+            g.append(('error-for-this-endpoint', ev('r is message.remote', r=e[3])))
+            g.append(('error-is-timeout-class', B(ex.issub(e[2].cls, 'aiocoap.error:ConRetransmitsExceeded')
+                                                   and ex.issub('aiocoap.error:ConRetransmitsExceeded', 'aiocoap.error:TimeoutError')
+                                                   and ex.issub('aiocoap.error:TimeoutError', 'aiocoap.error:NetworkError')
+                                                   and ex.issub('aiocoap.error:NetworkError', 'aiocoap.error:Error'))))
+        g.append(('exchange-stays-iff-resend', ev('((message.remote, message.mid) in self._active_exchanges)') == more))
+        g.append(('monitor-kept', z3.Implies(more, ev('self._active_exchanges[(message.remote, message.mid)][0] is old(self._active_exchanges[(message.remote, message.mid)][0])'))))
+        g.append(('backlog-dropped-on-give-up', z3.Implies(z3.Not(more), ev('message.remote not in self._backlogs'))))
+        g.append(('old-timer-cancelled', B(len(evs(s, 'cancel')) == 1)))
+        return g
+
+    reg.contract(MM + '._retransmit', params={'message': MSG, 'timeout': REAL, 'retransmission_counter': INT},
+                 properties=['C03', 'C14'], only_raises=True,
+                 requires=['mm_inv(self)', 'message.remote is not None', 'message.mid is not None',
+                           '(message.remote, message.mid) in self._active_exchanges', 'retransmission_counter >= 0'],
+                 ghost=lg('_retransmit', 'self', 'message', 'timeout', 'retransmission_counter'),
+                 modifies=[ACT, BL], at_exit=retr_exit,
+                 ensures={'invariant-kept': 'mm_inv(self)',
+                          'other-exchanges-untouched': frame('_active_exchanges', '(message.remote, message.mid)'),
+                          'other-backlogs-untouched': frame('_backlogs', 'message.remote')})
+
+    # ---- _process_request (piggy-back window)
+    def pr_exit(ex, s, entry, env, result):
+        ev = Ev(ex, s, entry, env)
+        con = ev('request.mtype == 0')
+        timers, cancels, up, eacks = evs(s, 'call_later'), evs(s, 'cancel'), evs(s, 'tm_process_request'), evs(s, 'empty_ack')
+        had = ev('old((request.remote, request.token) in self._piggyback_opportunities)')
+        g = [('one-upcall', B(len(up) == 1)), ('ack-timer-iff-confirmable', B(len(timers) == 1) == con),
+             ('non-leaves-opportunities-alone', z3.Implies(z3.Not(con), B(not cancels and not eacks)))]
+        for e in up:
+            g.append(('upcall-this-request', e[2].t == env['request'].t))
+        for e in timers:
+            g.append(('ack-delay-from-request-tuning', ev('d == request.transport_tuning.EMPTY_ACK_DELAY', d=e[1])))
+            g.append(('opportunity-recorded-with-request-mid', ev('(request.remote, request.token) in self._piggyback_opportunities and self._piggyback_opportunities[(request.remote, request.token)][0] == request.mid and self._piggyback_opportunities[(request.remote, request.token)][1] is h', h=e[4])))
+            s3 = simulate(ex, s, e[2], e[3])
+            g.append(('timer-callback-does-not-raise', B(s3 is not None)))
+            if s3 is not None:
+                n0 = len(s.log)
+                acks = [x for x in s3.log[n0:] if x[0] == 'empty_ack']
+                g.append(('timer-sends-one-empty-ack', B(len(acks) == 1 and len(s3.log) - n0 == 1)))
+                e3 = Ev(ex, s3, entry, env)
+                for a in acks:
+                    g.append(('timer-acks-this-request', e3('r is request.remote and m == request.mid', r=a[2], m=a[3])))
+                g.append(('timer-consumes-opportunity', e3('(request.remote, request.token) not in self._piggyback_opportunities')))
+        g.append(('earlier-pending-ack-is-sent-not-dropped', z3.Implies(z3.And(con, had), z3.And(B(len(cancels) == 1), B(len(eacks) == 1)))))
+        for a in eacks:
+            g.append(('earlier-request-acked-under-its-mid', ev('m == old(self._piggyback_opportunities[(request.remote, request.token)][0]) and r is request.remote', r=a[2], m=a[3])))
+        for c in cancels:
+            g.append(('cancels-the-earlier-ack-timer', ev('h is old(self._piggyback_opportunities[(request.remote, request.token)][1])', h=c[1])))
+        g.append(('no-ack-without-earlier-request', z3.Implies(z3.Not(z3.And(con, had)), B(len(eacks) == 0 and len(cancels) == 0))))
+        return g
+
+    reg.contract(MM + '._process_request', params={'request': MSG}, properties=['C10'], only_raises=True,
+                 requires=['mm_inv_sd(self)', 'request.remote is not None', 'request.mtype is not None', 'request.mid is not None'],
+                 modifies=[PB, REC], at_exit=pr_exit, ghost=lg('process_request', 'self', 'request'),
+                 ensures={'invariant-kept': 'mm_inv_sd(self)',
+                          'running-stays-running': 'implies(old(self._active_exchanges is not None), mm_inv(self))',
+                          'other-opportunities-untouched': frame('_piggyback_opportunities', '(request.remote, request.token)')})
+
+    # =========================================================== entry points
+    # ---- dispatch_message: the reaction table
+    def dm_exit(ex, s, entry, env, result):
+        ev = Ev(ex, s, entry, env)
+        m = env['message']
+        is_req, is_resp, empty = ev('1 <= message.code < 32'), ev('64 <= message.code < 192'), ev('message.code == 0')
+        ty = lambda t: ev('message.mtype == %d' % t)
+        dd = evs(s, 'dedup')
+        dup = z3.BoolVal(False)
+        g = [('dedup-only-requests', B(len(dd) == 1) == is_req)]
+        for e in dd:
+            g.append(('dedup-this-message', e[2].t == m.t))
+            dup = e[3].t
+        g.append(('duplicate-request-stops-here', z3.Implies(z3.And(is_req, dup), B(len(s.log) == len(dd)))))
+        live = z3.Not(z3.And(is_req, dup))
+        rm, ping, preq, presp, eack, si = (evs(s, k) for k in ('_remove_exchange', 'ping', 'process_request', 'process_response', 'empty_ack', 'send_initially'))
+        g.append(('ack-or-rst-ends-exchange', z3.Implies(live, B(len(rm) == 1) == z3.Or(ty(ACK), ty(RST)))))
+        g.append(('ping-answered', z3.Implies(live, B(len(ping) == 1) == z3.And(empty, ty(CON)))))
+        g.append(('request-upcall', z3.Implies(live, B(len(preq) == 1) == z3.And(is_req, z3.Or(ty(CON), ty(NON))))))
+        g.append(('response-upcall', z3.Implies(live, B(len(presp) == 1) == z3.And(is_resp, z3.Or(ty(CON), ty(NON), ty(ACK))))))
+        for e in rm + ping + preq + presp:
+            g.append(('same-message-passed-on', e[2].t == m.t))
+        matched = presp[0][3].t if presp else z3.BoolVal(False)
+        g.append(('matched-con-response-gets-empty-ack', B(len(eack) == 1) == z3.And(B(len(presp) == 1), matched, ty(CON))))
+        for e in eack:
+            g.append(('ack-to-sender', ev('r is message.remote', r=e[2])))
+            g.append(('ack-same-mid', ev('m2 == message.mid', m2=e[3])))
+        unmatched_con = z3.And(B(len(presp) == 1), z3.Not(matched), ty(CON), ev('not message.remote.is_multicast_locally'))
+        g.append(('unmatched-unicast-con-response-gets-rst', B(len(si) == 1) == unmatched_con))
+        for e in si:
+            g.append(('rst-type', ev('r.mtype == 3 and r.code == 0 and r.mid == message.mid and len(r.payload) == 0', r=e[2])))
+            g.append(('rst-to-sender', ev('r.remote == as_response_address(message.remote)', r=e[2])))
+        g.append(('nothing-else', B(len(s.log) == len(dd) + len(rm) + len(ping) + len(preq) + len(presp) + len(eack) + len(si))))
+        return g
+
+    reg.contract(MM + '.dispatch_message', params={'message': MSG}, properties=['C10', 'C03', 'C04', 'C02', 'C14'],
+                 requires=['mm_inv(self)', 'message.code is not None', 'message.mtype is not None', 'message.remote is not None',
+                           'message.mid is not None', '0 <= message.mtype <= 3', '0 <= message.code <= 255', 'tuning_ok(message)'],
+                 only_raises=True, at_exit=dm_exit, modifies=[REC, ACT, BL, PB, '*lists'],
+                 ensures={'invariant-kept': 'mm_inv(self)'})
+
+    # ---- send_message
+    def sm_exit(ex, s, entry, env, result):
+        ev = Ev(ex, s, entry, env)
+        g = []
+        m = env['message']
+        is_resp = ev('old(64 <= message.code < 192)')
+        nr = z3.And(is_resp, ev('old(message.opt.no_response is not None and nr_suppressed(message.opt.no_response, message.code))'))
+        opp = z3.And(is_resp, ev('old((message.remote, message.token) in self._piggyback_opportunities)'))
+        si, bl, cancels, nmid = evs(s, 'send_initially'), evs(s, 'backlog_append'), evs(s, 'cancel'), evs(s, 'next_mid')
+        live = ev('old(self._active_exchanges is not None)')    # before MessageManager.shutdown (afterwards every type is forced to NON)
+        g.append(('suppressed-without-pending-ack-sends-nothing', z3.Implies(z3.And(nr, z3.Not(opp)), B(len(s.log) == 0))))
+        g.append(('opportunity-consumed', z3.Implies(opp, ev('(old(message.remote), old(message.token)) not in self._piggyback_opportunities'))))
+        g.append(('ack-timer-cancelled-iff-opportunity', B(len(cancels) == 1) == opp))
+        for e in cancels:
+            g.append(('cancels-the-pending-ack-timer', ev('h is old(self._piggyback_opportunities[(message.remote, message.token)][1])', h=e[1])))
+        for e in si:
+            out = e[2]
+            g.append(('suppressed-with-pending-ack-sends-empty-ack', z3.Implies(z3.And(nr, opp, live),
+                      ev('o is not message and o.mtype == 2 and o.code == 0 and o.mid == old(self._piggyback_opportunities[(message.remote, message.token)][0]) and o.remote == as_response_address(old(message.remote))', o=out))))
+            g.append(('otherwise-this-message', z3.Implies(z3.Not(z3.And(nr, opp)), out.t == m.t)))
+            g.append(('piggybacked-is-ack-with-request-mid', z3.Implies(z3.And(opp, z3.Not(nr), live),
+                      ev('message.mtype == 2 and message.mid == old(self._piggyback_opportunities[(message.remote, message.token)][0])'))))
+            g.append(('no-response-option-cleared', z3.Implies(is_resp, ev('o.opt.no_response is None', o=out))))
+            g.append(('never-con-to-multicast', ev('not (o.mtype == 0 and o.remote.is_multicast)', o=out)))
+            g.append(('mid-set', ev('o.mid is not None', o=out)))
+            g.append(('monitor-passed-on', ev('mon is messageerror_monitor', mon=e[3])))
+        g.append(('at-most-one-transmission', B(len(si) <= 1)))
+        plain = z3.And(z3.Not(opp), z3.Not(nr), ev('old(message.mtype is None)'))
+        g.append(('type-non-after-shutdown-or-multicast', z3.Implies(z3.And(plain, ev('old(self._active_exchanges is None) or old(message.remote.is_multicast)')), ev('message.mtype == 1'))))
+        g.append(('type-follows-reliability', z3.Implies(z3.And(plain, ev('old(self._active_exchanges is not None) and not old(message.remote.is_multicast)')),
+                  ev('message.mtype == (0 if old(message.transport_tuning.reliability) is True else 1 if old(message.transport_tuning.reliability) is False else 1 if (old(message.request) is not None and old(message.request.mtype) == 1) else 0)'))))
+        g.append(('fresh-mid-unless-piggybacked', z3.Implies(z3.And(B(len(si) + len(bl) == 1), z3.Not(opp)), B(len(nmid) == 1))))
+        for e in nmid:
+            g.append(('mid-from-counter', z3.Implies(z3.Not(opp), ev('message.mid == n', n=e[2]))))
+        con_out = ev('message.mtype == 0')
+        g.append(('con-behind-open-exchange-is-queued-not-sent', z3.Implies(z3.And(con_out, ev('old(message.remote in self._backlogs)'), z3.Not(nr)),
+                  z3.And(B(len(si) == 0), B(len(bl) == 1)))))
+        g.append(('con-without-open-exchange-is-sent-now', z3.Implies(z3.And(con_out, z3.Not(ev('old(message.remote in self._backlogs)')), z3.Not(nr)),
+                  z3.And(B(len(si) == 1), B(len(bl) == 0)))))
+        g.append(('only-con-is-ever-queued', z3.Implies(B(len(bl) > 0), con_out)))
+        g.append(('non-is-never-delayed', z3.Implies(z3.And(ev('message.mtype == 1'), z3.Not(nr)), B(len(si) == 1 and len(bl) == 0))))
+        for e in bl:
+            g.append(('queued-at-the-end', ev('old(message.remote in self._backlogs) and lst is old(self._backlogs[message.remote]) and it[0] is message and it[1] is messageerror_monitor '
+                                              'and len(lst) == old(len(self._backlogs[message.remote])) + 1 and lst[len(lst) - 1] == it '
+                                              'and forall(j, 0, len(lst) - 1, lst[j] == old(self._backlogs[message.remote][j]))', lst=e[1], it=e[2])))
+        return g
+
+    reg.contract(MM + '.send_message', params={'message': MSG, 'messageerror_monitor': Opt(CALLABLE)}, properties=['C10', 'C14', 'C18'],
+                 requires=['mm_inv_sd(self)', 'message.code is not None', 'message.remote is not None',
+                           'implies(message.mtype is not None, 0 <= message.mtype <= 3)', '0 <= message.code <= 255',
+                           'implies(message.opt.no_response is not None, 0 <= message.opt.no_response)',
+                           'messageerror_monitor is not None', 'tuning_ok(message)', 'not_held(self, message)'],
+                 raises={'ConToMulticast': MAY}, only_raises=True,
+                 raises_post={'ConToMulticast': {'only-con-to-multicast': lambda ctx: ctx.ex.truth(ctx.st, ctx.ev('message.mtype == 0 and message.remote.is_multicast')),
+                                                 'nothing-sent': lambda ctx: B(not evs(ctx.st, 'send_initially', 'wire', 'backlog_append', 'next_mid'))}},
+                 at_exit=sm_exit, modifies=[REC, ACT, BL, PB, '*lists', 'self.message_id', 'field:mtype', 'field:mid', 'field:no_response'],
+                 ensures={'invariant-kept': 'mm_inv_sd(self)',
+                          'running-stays-running': 'implies(old(self._active_exchanges is not None), mm_inv(self))'})
